@@ -36,6 +36,9 @@ func netParams() map[string]*chaincfg.Params {
 func (P) Facts() []core.Fact {
 	var fs []core.Fact
 	for k, v := range blockchain.VerifConstsC09() {
+		if k == "similarTimeSecs" {
+			continue // only gates a log warning: not observable, not a fact of the property
+		}
 		fs = append(fs, core.Fact{Name: k, Value: v})
 	}
 	for name, p := range netParams() {
